@@ -125,6 +125,8 @@ package object
 //@   requires [obj] o != nil
 //@   ensures [result] {C02,C12,C14,C19} err == nil ==> c != nil && fresh(c) && c.Object == o
 //@   ensures [ids] {C14,C19} err == nil ==> len(c.Tree) >= 20 && (forall i int :: 0 <= i && i < len(c.Parents) ==> len(c.Parents[i]) >= 20)
+//@   ensures [nil] err != nil ==> c == nil
+//@   ensures [kind] {C19} o.Type != CommitObject ==> err != nil
 //@   loop 0:
 //@     invariant commit != nil && fresh(commit) && commit.Object == o
 //@     invariant len(commit.Tree) == 0 || len(commit.Tree) >= 20
@@ -145,5 +147,3 @@ package object
 //@   modifies $rdpos, $hashdata
 //@   ensures [shape] err == nil ==> t != nil && fresh(t) && treeWF(t.Children)
 //@   ensures [nil] err != nil ==> t == nil
-//@   ensures [nil] err != nil ==> c == nil
-//@   ensures [kind] {C19} o.Type != CommitObject ==> err != nil
